@@ -322,8 +322,8 @@ def run_C08(ctx, args):
     ctx.assumptions += [
         "arbitrary byte strings are covered by the enumerated structured mutations plus seeded samples, not exhaustively",
         "embedded snapshots and transactions are atomic tokens here; their own grammars are checked by C07 and C06",
-        "a point is invalid when filippo.io/edwards25519 refuses its encoding or it is the identity; validity of the parsed "
-        "fields is observed with crypto.Key.CheckKey",
+        "invalid points are built with filippo.io/edwards25519 (off curve, torsion, valid + torsion); validity of the parsed "
+        "fields is observed with the harness's own prime-order test on that library, not with crypto.Key.CheckKey",
     ]
 
 
